@@ -390,7 +390,8 @@ type c05variant struct {
 	writesBefore    int
 	writesDuring    int
 	snapshotEntries uint64
-	bigBefore       int // puts of 4000-byte values before the follower starts: responses larger than the proposal size
+	bigBefore       int  // puts of 4000-byte values before the follower starts: responses larger than the proposal size
+	readerAhead     bool // another follower has already read the leader's log (the leader's log cache is ahead), then the leader moved on
 }
 
 func runC05Scenario(rf *runFlags, rnd *rand.Rand, sum *Summary, cf *CasesFile, v c05variant, caseNo int) error {
@@ -486,6 +487,36 @@ func runC05Scenario(rf *runFlags, rnd *rand.Rand, sum *Summary, cf *CasesFile, v
 				return fmt.Errorf("leader snapshot: %w", err)
 			}
 			time.Sleep(100 * time.Millisecond)
+		}
+		if v.readerAhead {
+			// what a second follower cluster (or a worker that died before proposing) does: read the whole log once
+			rctx, rcancel := context.WithTimeout(context.Background(), 20*time.Second)
+			next := uint64(1)
+			for round := 0; round < 200; round++ {
+				st, err := regattapb.NewLogClient(sys.conn).Replicate(rctx, &regattapb.ReplicateRequest{Table: []byte(tname), LeaderIndex: next})
+				if err != nil {
+					rcancel()
+					return fmt.Errorf("second reader: %w", err)
+				}
+				progressed := false
+				for {
+					m, err := st.Recv()
+					if err != nil {
+						break
+					}
+					if cr := m.GetCommandsResponse(); cr != nil && len(cr.Commands) > 0 {
+						next = cr.Commands[len(cr.Commands)-1].LeaderIndex + 1
+						progressed = true
+					}
+				}
+				if !progressed {
+					break
+				}
+			}
+			rcancel()
+			if err := write(12); err != nil {
+				return err
+			}
 		}
 		if err := startMgr(); err != nil {
 			return err
@@ -687,7 +718,7 @@ func runC05Scenario(rf *runFlags, rnd *rand.Rand, sum *Summary, cf *CasesFile, v
 		}
 		leaderIDs[i] = fmt.Sprint(id(b))
 	}
-	var props []string
+	var props, flat, flatDescr []string
 	kinds := sum.hist("follower_proposals")
 	for _, e := range fents {
 		if e.Type != raftpb.EncodedEntry {
@@ -713,12 +744,27 @@ func runC05Scenario(rf *runFlags, rnd *rand.Rand, sum *Summary, cf *CasesFile, v
 			}
 			props = append(props, fmt.Sprintf("pseq %s %s", tag, cList(ids)))
 			kinds.Inc("sequence")
+			flat = append(flat, ids...)
+			flatDescr = append(flatDescr, fmt.Sprintf("%s:%d commands", tag, len(ids)))
 		case regattapb.Command_PUT_BATCH:
 			props = append(props, fmt.Sprintf("prestore %s", tag))
 			kinds.Inc("restore batch")
+			flat, flatDescr = nil, nil // a recovery starts the table afresh
 		default:
 			props = append(props, fmt.Sprintf("pother %s", tag))
 			kinds.Inc("other " + cmd.Type.String())
+		}
+	}
+	// exactly once and in leader order: what the follower proposed to itself since its last recovery is a gap-free run
+	// of the leader's commands ending at the leader's last one
+	if fl == leaderApplied && len(flat) <= len(leaderIDs) {
+		tail := leaderIDs[len(leaderIDs)-len(flat):]
+		for i := range flat {
+			if flat[i] != tail[i] {
+				sum.violate(caseNo, "the commands the follower applied are not the leader's commands, each once and in leader order", in,
+					fmt.Sprintf("the follower's proposals (leader index tag:size) %v carry %d commands; as a run ending at the leader's last command, position %d holds another command (leader commands skipped or repeated)", flatDescr, len(flat), i))
+				break
+			}
 		}
 	}
 	cf.Add(fmt.Sprintf("{| r_leader := %s; r_props := %s; r_final := %d |}", cList(leaderIDs), cList(props), fl),
@@ -834,6 +880,16 @@ func runC05Tables(rf *runFlags, rnd *rand.Rand, sum *Summary, caseNo int, recrea
 		}
 		if ok, why := converged(30 * time.Second); !ok {
 			sum.violate(caseNo, "the follower's tables do not converge to the leader's", in, "after deleting a and creating b: "+why)
+			return nil
+		}
+		// ... down to no table at all
+		for _, n := range []string{"b", "t"} {
+			if err := sys.leader.e.DeleteTable(n); err != nil {
+				return err
+			}
+		}
+		if ok, why := converged(30 * time.Second); !ok {
+			sum.violate(caseNo, "the follower's tables do not converge to the leader's", in, "after deleting every table on the leader: "+why)
 		}
 		return nil
 	}
@@ -1062,7 +1118,7 @@ func runC05(args []string) error {
 		return err
 	}
 	sum := &Summary{Engine: "c05", Seed: rf.Seed,
-		Rule: "full system in one process: a real single-node leader storage.Engine with the real replication gRPC services (metadata, log with the cached log reader, snapshot) and a real single-node follower storage.Engine with the real replication.Manager/worker. The leader table receives random puts, deletes, range deletes and non-idempotent transactions through the table API while the follower replicates; variants: follower from the start, follower started after the leader compacted its log (snapshot recovery), small message-size limit, worker restart, follower engine restart. A sampler reads (leader index, full content, leader index) on the follower every 2 ms. Go oracle: convergence within 40 s after the leader stops, final content equal, every sample equals the leader's content at exactly that leader log index (reference replay of the leader's raft log through a real state machine), sampled index never decreases. Coq: the follower's own raft log must be explained by the model - its SEQUENCE proposals carry exactly the leader's entries, in order, each once, tagged with the index of their last entry, starting from the index a restore recorded. distinct = system runs; non-trivial = 20 or more leader commands"}
+		Rule: "full system in one process: a real single-node leader storage.Engine with the real replication gRPC services (metadata, log with the cached log reader, snapshot) and a real single-node follower storage.Engine with the real replication.Manager/worker. The leader table receives random puts, deletes, range deletes and non-idempotent transactions through the table API while the follower replicates; variants: follower from the start, follower started after the leader compacted its log (snapshot recovery), small message-size limit (also with a second reader that filled the leader's log cache ahead of the follower), follower engine restart, large backlog. A sampler reads (leader index, full content, leader index) on the follower every 2 ms. Go oracle: convergence within 40 s after the leader stops, final content equal, every sample equals the leader's content at exactly that leader log index (reference replay of the leader's raft log through a real state machine), sampled index never decreases. Coq: the follower's own raft log must be explained by the model - its SEQUENCE proposals carry exactly the leader's entries, in order, each once, tagged with the index of their last entry, starting from the index a restore recorded. distinct = system runs; non-trivial = 20 or more leader commands"}
 	quietDragonboat()
 	go func() {
 		time.Sleep(time.Duration(10+5*rf.Scale) * time.Minute)
@@ -1078,6 +1134,7 @@ func runC05(args []string) error {
 		{name: "late follower, leader log compacted (snapshot recovery)", lateFollower: true, writesBefore: 60, writesDuring: 30, snapshotEntries: 1, maxMsg: 0},
 		{name: "small message size limit", writesBefore: 40, writesDuring: 30, maxMsg: 1500, lateFollower: true},
 		{name: "follower engine restart", writesBefore: 10, writesDuring: 50, restartFollower: true},
+		{name: "small message size limit, another reader ahead of the follower (leader log cache)", writesBefore: 40, writesDuring: 20, maxMsg: 1500, lateFollower: true, readerAhead: true},
 		{name: "large backlog (responses cut into several proposals)", lateFollower: true, writesBefore: 5, bigBefore: 200, writesDuring: 10},
 	}
 	rounds := 1
